@@ -1,22 +1,28 @@
 #!/bin/sh
-# Build the engines offline and warm the dependency caches (MANIFEST.setup_cmd).
+# Build the engines offline and warm the fact caches (MANIFEST.setup_cmd). Everything lives under /verif.
 set -e
 cd "$(dirname "$0")"
 export CARGO_NET_OFFLINE=true
 (cd engines/mirfacts && cargo build --offline 2>&1 | tail -2)
-if [ -d engines/srcfacts ]; then
-  cp /repo/Cargo.lock engines/srcfacts/Cargo.lock 2>/dev/null || true
-  (cd engines/srcfacts && cargo build --offline 2>&1 | tail -2)
-fi
+cp /repo/Cargo.lock engines/srcfacts/Cargo.lock 2>/dev/null || true
+(cd engines/srcfacts && cargo build --offline 2>&1 | tail -2)
 python3 - <<'PY'
 import sys, os
 sys.path.insert(0, os.getcwd())
+from concurrent.futures import ThreadPoolExecutor
 from rules.lib import facts
-for name in ("default", "all", "none"):
-    d = facts.ensure_mir_facts(facts.CONFIGS[name])
-    print("facts:", name, d)
-try:
-    print("src facts:", facts.ensure_src_facts())
-except facts.EngineError as e:
-    print("srcfacts not available yet:", e)
+quick = [facts.CONFIGS["default"], facts.CONFIGS["all"], facts.CONFIGS["none"], ["decode"], ["decode", "serde"], ["docs"], ["std", "docs"]]
+def warm(x):
+    i, f = x
+    return facts.ensure_mir_facts(f)
+# the first configuration alone (cold dependency build), the rest in parallel on separate target slots
+print("facts:", warm((0, quick[0])))
+with ThreadPoolExecutor(max_workers=4) as ex:
+    for d in ex.map(warm, list(enumerate(quick))[1:]):
+        print("facts:", d)
+print("src facts:", facts.ensure_src_facts())
+print("derive corpus facts:", facts.ensure_fixture_facts()[0])
+from rules.lib import witness
+r = witness.run("quick")
+print("witnesses:", len(r), "decided;", sum(1 for v in r.values() if not v["ok"]), "unexpected")
 PY
